@@ -214,6 +214,28 @@ fn custom_predicate(name: &str, hay: &str) -> bool {
         // whose operands is a top-level AND that has the other operand as a
         // conjunct (the shape the distributive_or rewrite gets wrong)
         "or_absorption_shape" => or_absorption_shape(hay),
+        // some name w<digits> is scanned at least twice (`w3 AS r..`) and the
+        // statement joins: two references to one CTE inside a join tree
+        "cte_twice_in_join" => {
+            let mut names: std::collections::BTreeSet<String> = Default::default();
+            let b: Vec<char> = hay.chars().collect();
+            let mut i = 0;
+            while i < b.len() {
+                if b[i] == 'w' && (i == 0 || !b[i - 1].is_alphanumeric()) {
+                    let mut j = i + 1;
+                    while j < b.len() && b[j].is_ascii_digit() {
+                        j += 1;
+                    }
+                    if j > i + 1 {
+                        names.insert(b[i..j].iter().collect());
+                    }
+                    i = j;
+                } else {
+                    i += 1;
+                }
+            }
+            hay.contains(" JOIN ") && names.iter().any(|n| hay.matches(&format!(" {n} AS r")).count() >= 2)
+        }
         _ => false,
     }
 }
